@@ -222,7 +222,7 @@ def run(P: Program, rep: Report):
 
     # ------------------------------------------------------------ uniformity of the index predicates
     rep.rule("C06.R4", "the comma and separator predicates compare the loop index only with len(...)-1 of the sequence being "
-                       "enumerated (so the explored sizes 0..3 / 0..5 generalise to every size)")
+                       "enumerated or with the first index (so the explored sizes 0..3 / 0..5 generalise to every size)")
     for fname in ("_treat_entry", "write"):
         f = wmod.functions.get(fname)
         if f is None:
@@ -236,6 +236,6 @@ def run(P: Program, rep: Report):
             for n in own_nodes(f.node):
                 if isinstance(n, ast.Compare) and any(isinstance(x, ast.Name) and x.id == iname for x in ast.walk(n)):
                     other = [c for c in [n.left] + n.comparators if not (isinstance(c, ast.Name) and c.id == iname)]
-                    ok = len(other) == 1 and f"len({seq})" in ast.unparse(other[0])
+                    ok = len(other) == 1 and (f"len({seq})" in ast.unparse(other[0]) or (isinstance(other[0], ast.Constant) and other[0].value in (0, 1)))
                     rep.check(ok, "C06.R4", f"{fname}:index-compare:{norm_stmt(n)}", f"{wmod.relpath}:{n.lineno}",
                               f"loop index {iname} is compared with {ast.unparse(other[0]) if other else '?'}, not with the length of the enumerated sequence {seq}")
